@@ -12,6 +12,12 @@ CHECKS = {
  "C08": dict(level="model_checking", design="§3 C08",
    technique="explicit-state BFS to fixpoint over the real SimApp (pause/unpause alphabet) with a lock-step pause-set reference model; probes and queries in every reachable state",
    text="All states reachable by the pause/unpause message alphabet (quick 64, thorough 2048 distinct full-store states; fixpoint reached) are enumerated on the real application; in every state every admin message is applied and compared with a reference model (outcome, atomicity, no foreign writes), all pause queries are compared with the model, and probe transfers to every destination must be executed iff neither protocol nor pair is paused."),
+ "C01": dict(level="model_checking", design="§3 C01",
+   technique="explicit-state BFS over bounded operation histories of the real SimApp; every reached state receives the whole probe-packet alphabet; balance invariant checked on every transition",
+   text="Every history of <=2 (quick) / <=3 (thorough) operations over a 14-operation prefix alphabet (transfers on every route, direct deposits, pauses, parameter change, token-factory pause, plain ICS-20 traffic) is executed on the real application, states de-duplicated by exact full-store hash, and every distinct state receives ~3100 probe packets (13 receiver spellings x 48 memos x amounts/denoms/channels). Invariant on every transition: a success acknowledgement never leaves the orbiter account with a larger balance in any denomination; an orbiter-addressed packet is either acknowledged or refused (no panic)."),
+ "C02": dict(level="model_checking", design="§3 C02",
+   technique="same exhaustive exploration as C01 with a whole-ledger monitor: all bank balances and total supply snapshotted before/after every successful orbiter transfer and compared with the delta computed by a math/big reference",
+   text="On every successful orbiter-addressed transfer among all transitions of the C01 exploration (plus an amount menu up to 2^256-1 and the IGP Hyperlane configuration) the complete bank ledger delta (every account found by iterating the bank store, and total supply) must equal the expected delta: escrow -A, each fee recipient +f_i, sink +out / burn, stray balance to the dust collector, nothing else; out > 0."),
 }
 
 NOT_YET = {}
